@@ -4,8 +4,11 @@ import (
 	"context"
 	"crypto/sha256"
 	"fmt"
+	"hash/fnv"
+	"os"
 	"strings"
 	"sync"
+	"sync/atomic"
 	"testing"
 	"testing/synctest"
 	"time"
@@ -23,8 +26,10 @@ import (
 
 // C08 — the pending-submission limit throttles but never deadlocks block production.
 // Real production step + the UNMODIFIED submission loops under virtual time; every sequence of
-// {produce non-empty, produce empty, DA block with accepting DA, DA block with DA outage} up to the depth bound,
-// for limits 1..3 and initial heights 1 and 3.
+// {produce non-empty, produce empty, DA block with accepting DA, DA block with DA outage, crash + restart, clean stop +
+// restart} up to the depth bound, for limits 1..3 and initial heights 1 and 3. A restart builds a NEW Manager over the
+// key/value image the old process left behind (same DA layer, executor, sequencing layer): whatever the new process
+// believes to be pending it has read back from the store.
 
 const daBlock = time.Second
 
@@ -60,18 +65,58 @@ func classify(blob []byte) (item, bool) {
 }
 
 type outcome struct {
-	fail   *world.Fail
-	tags   []string
-	events []string
-	sig    string
+	skipped bool // the history prefix belongs to another shard process (nothing was checked here)
+	early   bool // the run ended before the shard cut (every shard process sees it)
+	fail    *world.Fail
+	tags    []string
+	events  []string
+	sig     string
 }
 
-func body(t *testing.T, c *explore.Ctx, depth int) (out outcome) {
-	synctest.Test(t, func(t *testing.T) { out = bubble(c, depth) })
+func body(t *testing.T, c *explore.Ctx, depth int, sh sharder) (out outcome) {
+	synctest.Test(t, func(t *testing.T) { out = bubble(c, depth, sh) })
 	return
 }
 
-func bubble(c *explore.Ctx, depth int) (out outcome) {
+// sharder deals the exploration out to the shard processes by a hash of the first decisions of a history: every
+// shard walks the (small) tree of history prefixes up to the cut, and exactly one shard continues below each prefix.
+// The engine's own dealing (by the children of the root execution) gives one third of this tree to one process.
+type sharder struct{ i, n int }
+
+func takeShard() sharder {
+	sh := sharder{0, 1}
+	if sp := os.Getenv("VERIF_SHARD"); sp != "" {
+		fmt.Sscanf(sp, "%d/%d", &sh.i, &sh.n)
+		if sh.n < 1 || sh.i < 0 || sh.i >= sh.n {
+			sh = sharder{0, 1}
+		}
+		os.Unsetenv("VERIF_SHARD") // the engine must not deal the tree out a second time
+	}
+	return sh
+}
+
+func (sh sharder) mine(c *explore.Ctx) bool {
+	if sh.n <= 1 {
+		return true
+	}
+	h := fnv.New64a()
+	for _, p := range c.Choices() {
+		h.Write([]byte{byte(p.Choice), byte(p.N)})
+	}
+	v := h.Sum64()
+	v ^= v >> 33
+	v *= 0xff51afd7ed558ccd
+	v ^= v >> 33
+	return int(v%uint64(sh.n)) == sh.i
+}
+
+// restart kinds (choice values of the "restart" point; 0 = no restart at this step)
+const (
+	restartCrash = 1 // the process is killed: from this instant no call of the old process reaches the store, the DA layer, the executor or the sequencer
+	restartClean = 2 // the loops are cancelled and run to their end (whatever they do on the way out takes effect), then the process ends
+)
+
+func bubble(c *explore.Ctx, depth int, sh sharder) (out outcome) {
 	t0 := time.Now()
 	limit := uint64(1 + c.Choose("config", 3))
 	initial := uint64(1)
@@ -98,19 +143,39 @@ func bubble(c *explore.Ctx, depth int) (out outcome) {
 		}
 		return world.SubmitAcceptAll
 	}
-	n, err := world.StartNode(p, env, nil, world.NodeOpts{Aggregator: true})
-	if err != nil {
-		out.fail = &world.Fail{Clause: "startup", Msg: err.Error()}
+	// one process life: a Manager over the key/value image (nil = empty) and the shared environment, with the two real
+	// submission loops; the harness acts 504 ms after the header loop's ticker started, i.e. between two DA blocks
+	var n *world.Node
+	cancel := func() {}
+	boot := func(image map[string][]byte) *world.Fail {
+		nn, err := world.StartNode(p, env, image, world.NodeOpts{Aggregator: true})
+		if err != nil {
+			return &world.Fail{Clause: "startup", Msg: "the node cannot start: " + err.Error()}
+		}
+		n = nn
+		var ctx context.Context
+		ctx, cancel = context.WithCancel(context.Background())
+		go n.M.HeaderSubmissionLoop(ctx)
+		time.Sleep(time.Millisecond)
+		go n.M.DataSubmissionLoop(ctx)
+		time.Sleep(503 * time.Millisecond)
+		synctest.Wait()
+		return nil
+	}
+	defer func() {
+		if n != nil {
+			n.Fate.Kill()
+		}
+		cancel()
+		synctest.Wait()
+	}()
+	if f := boot(nil); f != nil {
+		out.fail = f
 		return
 	}
-	ctx, cancel := context.WithCancel(context.Background())
-	go n.M.HeaderSubmissionLoop(ctx)
-	time.Sleep(time.Millisecond)
-	go n.M.DataSubmissionLoop(ctx)
-	time.Sleep(503 * time.Millisecond)
-	defer func() { cancel(); synctest.Wait() }()
 
 	allEmpty, sawOutage := true, false
+	restarts, restartAfterAck := 0, false
 	var extraTags []string
 	tags := func() []string {
 		tg := append([]string(nil), extraTags...)
@@ -125,6 +190,12 @@ func bubble(c *explore.Ctx, depth int) (out outcome) {
 		}
 		if initial > 1 {
 			tg = append(tg, "initial-height>1")
+		}
+		if restarts > 0 {
+			tg = append(tg, "node-restart")
+		}
+		if restartAfterAck {
+			tg = append(tg, "restart-after-da-acceptance")
 		}
 		return tg
 	}
@@ -204,7 +275,47 @@ func bubble(c *explore.Ctx, depth int) (out outcome) {
 		time.Sleep(daBlock)
 		synctest.Wait()
 	}
+	// restart: the process ends between two actions (crash or clean stop) and a NEW Manager is constructed over the
+	// key/value image the old one left behind; DA layer, executor and sequencing layer live on. Whatever the new
+	// process knows about "pending" it has read back from the store.
+	restart := func(kind int) *world.Fail {
+		restarts++
+		for _, call := range env.DA.SubmitLog() {
+			if call.Acked > 0 {
+				restartAfterAck = true
+			}
+		}
+		if kind == restartCrash {
+			n.Fate.Kill()
+			cancel()
+			synctest.Wait()
+			sig.WriteString("K")
+		} else {
+			cancel()
+			synctest.Wait()
+			n.Fate.Kill()
+			sig.WriteString("R")
+		}
+		return boot(n.KV.Image())
+	}
+	cut := depth / 2
+	out.early = true
 	for step := 0; step < depth; step++ {
+		if step == cut {
+			if !sh.mine(c) {
+				out.skipped = true // another shard process continues below this prefix
+				return
+			}
+			out.early = false
+		}
+		if k := c.Choose("restart", 3); k != 0 {
+			out.events = append(out.events, map[int]string{restartCrash: "crash+restart", restartClean: "clean-stop+restart"}[k])
+			if f := restart(k); f != nil {
+				out.fail, out.tags = f, tags()
+				return
+			}
+			continue
+		}
 		if c.Choose("act", 2) == 0 {
 			empty := c.Choose("chain", 2) == 1
 			out.events = append(out.events, map[bool]string{true: "produce-empty", false: "produce-nonempty"}[empty])
@@ -242,15 +353,21 @@ func TestCheck(t *testing.T) {
 	if r.RunShards(16) { // bubble-heavy: one process per shard of the exploration
 		return
 	}
+	sh := takeShard()
 	depth := vf.Pick(r, 6, 8)
-	budgets := map[string]int{"outage": 3}
+	maxRestarts := vf.Pick(r, 2, 2)
+	lazyBlocks := vf.Pick(r, 6, 8)
+	lazyRestarts := vf.Pick(r, 1, 2)
+	budgets := map[string]int{"outage": 3, "restart": maxRestarts}
 	r.Assume = []string{
 		"virtual time; DA block time 1 s; a DA outage rejects every Submit during one DA block with a generic error",
 		"'genuinely still waiting' is read in the weakest way: committed blocks whose header, or non-empty data, has not been acknowledged by the DA layer, counted once per block",
 		"'resumes as soon as accepted': checked after three accepting DA blocks in which nothing is left unacknowledged",
-		"part 2: lazy mode (block interval 1 s, idle interval 2 s), idle chain (only empty batches), real AggregationLoop and submission loops under the cooperative scheduler in canonical order; every outage pattern over 6/8 DA blocks, limits 1-2; after the DA accepted everything a block must appear within two idle intervals and a block interval",
+		"node restarts: between any two actions the process may end — crash (from that instant no call of the old process reaches the store, the DA layer, the executor or the sequencer) or clean stop (the loops are cancelled and run to their end first) — and a NEW Manager is constructed over the key/value image the old process left behind, with the same DA layer, executor and sequencing layer; the submission loops are started again and the harness keeps acting between two DA blocks. The oracle is the same before and after a restart (the ground truth is the DA double's acknowledgement log and the chain in the image, both of which outlive the process). Restarts happen at action boundaries only: no crash in the middle of a store write or of a DA call (after such a crash the node cannot know about an acceptance, so counting the block as waiting is not a violation; C04/C06/C07 explore those instants). The on-disk cache files are not part of this world (root directory absent); the pending counts do not use them. A node that cannot be constructed over its own image is reported (clause startup)",
+		"part 2: lazy mode (block interval 1 s, idle interval 2 s), idle chain (only empty batches), real AggregationLoop and submission loops under the cooperative scheduler in canonical order; every outage pattern over 6/8 DA blocks, limits 1-2, with up to 1/2 restarts (crash or clean stop; new Manager and new loops over the image left behind) at any DA-block boundary including the one before the closing phase; after the DA accepted everything for 4 DA blocks a block must appear within two idle intervals and a block interval",
+		"the exploration is dealt out to 16 processes by a hash of the first half of each history (each process walks the prefix tree, exactly one continues below a prefix); evaluations counts complete histories only, each once",
 	}
-	run := func(c *explore.Ctx) outcome { return body(t, c, depth) }
+	run := func(c *explore.Ctx) outcome { return body(t, c, depth, sh) }
 	if r.ReplayPath() != "" {
 		var ch []explore.Point
 		var lz struct {
@@ -259,7 +376,7 @@ func TestCheck(t *testing.T) {
 		}
 		if _, err := r.LoadReplay(&lz); err == nil && lz.Lazy {
 			explore.ReplayOne(lz.Choices, func(c *explore.Ctx) {
-				if o := lazyBody(t, c, vf.Pick(r, 6, 8)); o.fail != nil {
+				if o := lazyBody(t, c, lazyBlocks, sh); o.fail != nil {
 					fmt.Println(o.fail.Msg, o.events)
 					r.Report(vf.Violation{Clause: o.fail.Clause, Tags: o.tags, Msg: o.fail.Msg, History: lz})
 				}
@@ -277,8 +394,16 @@ func TestCheck(t *testing.T) {
 		r.Finish(vf.Coverage{Evaluations: 1, DistinctNontrivial: 1})
 		return
 	}
-	st := explore.Explore(explore.Config{Budgets: budgets, Deadline: vf.Pick(r, 100*time.Second, 25*time.Minute)}, func(c *explore.Ctx) {
+	var full, points atomic.Int64 // complete histories of this process (prefix stubs of other shards are not counted)
+	var sampled [3]atomic.Int32
+	st := explore.Explore(explore.Config{Budgets: budgets, Deadline: vf.Pick(r, 240*time.Second, 25*time.Minute)}, func(c *explore.Ctx) {
 		o := run(c)
+		if o.skipped || (o.early && !sh.mine(c)) {
+			return
+		}
+		full.Add(1)
+		points.Add(int64(len(c.Choices())))
+		restarted := strings.ContainsAny(o.sig, "KR")
 		if o.fail != nil {
 			r.Report(vf.Violation{Clause: o.fail.Clause, Tags: o.tags, Msg: fmt.Sprintf("%s\n events: %v", o.fail.Msg, o.events), Cost: len(o.events), History: c.Choices()})
 			r.Outcome("fail:" + o.fail.Clause)
@@ -286,16 +411,27 @@ func TestCheck(t *testing.T) {
 		}
 		r.Outcome(o.sig)
 		if strings.Contains(o.sig, "d") {
-			r.Sample(map[string]any{"events": o.events, "signature(P=produced,d=declined,t=DA block,x=outage)": o.sig})
+			k := 0
+			if restarted {
+				k = 1
+			}
+			if sampled[k].Add(1) == 1 {
+				r.Sample(map[string]any{"events": o.events, "signature(P=produced,d=declined,t=DA block,x=outage,K=crash+restart,R=clean stop+restart)": o.sig})
+			}
 		}
 	})
 	for _, m := range st.Nondet {
 		r.EngineError("nondeterminism: " + m)
 	}
 	// part 2: lazy mode, idle chain, real AggregationLoop
-	lazyBlocks := vf.Pick(r, 6, 8)
-	st2 := explore.Explore(explore.Config{Deadline: vf.Pick(r, 60*time.Second, 10*time.Minute)}, func(c *explore.Ctx) {
-		o := lazyBody(t, c, lazyBlocks)
+	var lazyFull atomic.Int64
+	st2 := explore.Explore(explore.Config{Budgets: map[string]int{"restart": lazyRestarts}, Deadline: vf.Pick(r, 120*time.Second, 10*time.Minute)}, func(c *explore.Ctx) {
+		o := lazyBody(t, c, lazyBlocks, sh)
+		if o.skipped || (o.early && !sh.mine(c)) {
+			return
+		}
+		lazyFull.Add(1)
+		points.Add(int64(len(c.Choices())))
 		if o.fail != nil {
 			if o.fail.Clause == "engine" {
 				r.EngineError(o.fail.Msg)
@@ -306,26 +442,24 @@ func TestCheck(t *testing.T) {
 			return
 		}
 		r.Outcome(o.sig)
-		if len(o.events) >= 2 {
+		if len(o.events) >= 2 && strings.Contains(o.sig, "restart") && sampled[2].Add(1) == 1 {
 			r.Sample(map[string]any{"part": "lazy idle chain", "result": o.sig})
 		}
 	})
 	for _, m := range st2.Nondet {
 		r.EngineError("nondeterminism (lazy part): " + m)
 	}
-	st.Executions += st2.Executions
-	st.Points += st2.Points
-	if st2.Capped != "" && st.Capped == "" {
-		st.Capped = "lazy part: " + st2.Capped
-	}
 	var caps []string
 	if st.Capped != "" {
 		caps = append(caps, st.Capped)
 	}
+	if st2.Capped != "" {
+		caps = append(caps, "lazy part: "+st2.Capped)
+	}
 	r.Finish(vf.Coverage{
-		Evaluations: st.Executions, DistinctNontrivial: int64(r.DistinctOutcomes()), States: int64(r.DistinctOutcomes()), Transitions: st.Points,
-		Rule:       "every action sequence of the depth bound over {produce non-empty, produce empty, one DA block with accepting DA, one DA block of DA outage (at most 3)} × limit {1,2,3} × initial height {1,3}, on the real production step and the real submission loops under virtual time, each followed by three accepting DA blocks and one production attempt; distinct = distinct produced/declined signatures",
+		Evaluations: full.Load() + lazyFull.Load(), DistinctNontrivial: int64(r.DistinctOutcomes()), States: int64(r.DistinctOutcomes()), Transitions: points.Load(),
+		Rule:       "every action sequence of the depth bound over {produce non-empty, produce empty, one DA block with accepting DA, one DA block of DA outage (at most max_outage_blocks), crash + restart, clean stop + restart (together at most max_restarts; a restart = a NEW Manager and new submission loops over the key/value image the old process left behind, same DA layer / executor / sequencing layer)} × limit {1,2,3} × initial height {1,3}, on the real production step and the real submission loops under virtual time, each followed by three accepting DA blocks and one production attempt; part 2 (lazy mode, idle chain, real AggregationLoop): every outage pattern over lazy_da_blocks DA blocks × limit {1,2} × at most lazy_max_restarts restarts (crash or clean stop) at the DA-block boundaries; distinct = distinct produced/declined/restarted signatures",
 		Exhaustive: true, Caps: caps,
-		Bounds:     map[string]any{"depth": depth, "limits": []int{1, 2, 3}, "initial_heights": []int{1, 3}, "max_outage_blocks": 3},
+		Bounds: map[string]any{"depth": depth, "limits": []int{1, 2, 3}, "initial_heights": []int{1, 3}, "max_outage_blocks": 3, "max_restarts": maxRestarts, "restart_kinds": []string{"crash", "clean-stop"}, "lazy_da_blocks": lazyBlocks, "lazy_limits": []int{1, 2}, "lazy_max_restarts": lazyRestarts},
 	})
 }
